@@ -121,7 +121,8 @@ def build_app(cfg):
     for t, spec in sorted(cfg['types'].items()):      # a base type has a smaller index than its subclasses
         classes[t] = make_mw_type('C03' + t, spec['unique'], spec['reorderable'], type_funcs(cfg, t),
                                   base=classes[spec['base']] if spec.get('base') else None, hooks=spec.get('hooks', 'method'),
-                                  static_name=('sh:' + t) if spec.get('hooks') == 'static' else None)
+                                  static_name=('sh:' + t) if spec.get('hooks') == 'static' else None,
+                                  cls_name=('C03' + spec['named_like']) if spec.get('named_like') else None)
     outer, sub, route = instances(cfg)
     one = {}
 
@@ -136,7 +137,8 @@ def build_app(cfg):
                 out.append(classes[m['type']](m['name']))
         return out
     w = cfg.get('wiring') or {}
-    ep = make_function('EP', False, params_opt=([w['name']] if w.get('ep') else []), default_value=cfg['ep_returns'], bound=False)
+    ep = make_function('EP', False, params_req=cfg.get('ep_consumes', []), params_opt=([w['name']] if w.get('ep') else []),
+                       default_value=cfg['ep_returns'], bound=False)
     rn = make_function('RN', False, params_req=('context',), default_value='resp', bound=False) if cfg['has_render'] else None
     rt = Route('/x', ep, rn, middlewares=objs(route))
     rt2 = Route('/y', ep, rn)        # bound after /x, no middlewares of its own
@@ -168,7 +170,7 @@ class C03(Check):
     level_text = ('For each generated stack the single-fault space (<= 17 layers x 4 behaviours) is enumerated '
                   'completely and compared, event by event, with a reference interpreter; stacks are sampled by seed.')
     level_note = 'Trusted: the reference onion interpreter (written from the property text, ~90 lines).'
-    required_probes = ('same-hook-at-two-positions:static', 'same-hook-at-two-positions:one-instance', 'declared-name-provided-further-in', 'declared-name-offered',
+    required_probes = ('two-unique-types-with-one-class-name', 'chain-consumes-every-injectable', 'same-hook-at-two-positions:static', 'same-hook-at-two-positions:one-instance', 'declared-name-provided-further-in', 'declared-name-offered',
                        'non-response-value-through-layers', 'unique-type-twice-in-route-list', 'subclass-and-base-in-one-stack', 'closure-hooks', 'second-route-without-own-middlewares', 'render-skipped-for-response', 'no-render-layers-ran', 'unique-deduped', 'three-levels',
                        'swallow-fired', 'double-fault')
 
@@ -183,6 +185,9 @@ class C03(Check):
                                  'base': ('T%d' % rng.randrange(i)) if (i and rng.random() < 0.35) else None,
                                  # hooks as plain functions from one factory (same __name__/__module__ on every instance)
                                  'hooks': 'closure' if rng.random() < 0.3 else 'method'}
+            if i and rng.random() < 0.25:
+                # a different type that merely has the same class NAME as an earlier one (SessionMiddleware of another package)
+                types['T%d' % i]['named_like'] = 'T%d' % rng.randrange(i)
             r = rng.random()
             if not u and r < 0.3:
                 types['T%d' % i]['shared'] = True       # ONE instance of it, listed at every position the type takes
@@ -225,6 +230,8 @@ class C03(Check):
                     cons[t] = [ph for ph in types[t]['phases'] if rng.random() < 0.7]
             wiring = {'name': 'u1', 'provider': pt, 'consumers': cons, 'ep': rng.random() < 0.5}
         return {'types': types, 'outer': outer, 'sub': sub, 'route': route, 'wiring': wiring,
+                # what the endpoint declares: with all four, the chain consumes EVERYTHING the framework has on offer for this route
+                'ep_consumes': rng.choice([[], [], ['request'], ['request', '_route', '_application', '_dispatch_state']]),
                 'ep_returns': rng.choice(['dict', 'dict', 'resp', 'baseresp']), 'has_render': rng.random() < 0.8}
 
     def generate(self, seed, tier):
@@ -287,6 +294,10 @@ class C03(Check):
             res.probe('subclass-and-base-in-one-stack')
         if any(cfg['types'][t].get('hooks') == 'closure' for t in used):
             res.probe('closure-hooks')
+        if any(cfg['types'][t].get('named_like') in used and cfg['types'][t]['unique'] for t in used):
+            res.probe('two-unique-types-with-one-class-name')
+        if len(cfg.get('ep_consumes', [])) == 4:
+            res.probe('chain-consumes-every-injectable')
         names = [m['name'] for m in order]
         for m in order:
             if names.count(m['name']) > 1:
